@@ -884,6 +884,8 @@ def run(ctx):
     # a typed value is decoded from the XML on every read: a decoded pair kept on the wrapper outlives the property setters, which write the attributes directly (rule shared with C14)
     from .c14 import r14i
     r14i(ctx)
+    from .round12 import r06l
+    r06l(ctx)
 
 
 from ..selftest import Seed, unparse_seed  # noqa: E402
